@@ -253,10 +253,10 @@ WalkStmt(s, st, sigma, frozen, af, md) ==
         IF v.k = "unres" THEN NoteUnresAt(st, v, frozen, s.sid)
         ELSE IF v.k # "num" \/ v.n < 0 THEN Unspec(st)
         ELSE IF HasSeg(st) THEN [st EXCEPT !.segs[st.cur].pc = v.n] ELSE st
-    [] s.k = "align" ->
-        IF ~HasSeg(st) THEN st
-        ELSE LET v == EvalE(s.e, st, sigma, frozen) IN
+    [] s.k = "align" ->      \* the value is evaluated (and an unknown name in it noted) also where no segment is active
+        LET v == EvalE(s.e, st, sigma, frozen) IN
           IF v.k = "unres" THEN NoteUnresAt(st, v, frozen, s.sid)
+          ELSE IF ~HasSeg(st) THEN st
           ELSE IF v.k # "num" \/ v.n <= 0 THEN Unspec(st)
           ELSE LET r == TPc(st) % v.n
                    pad == IF af THEN v.n - r ELSE (IF r = 0 THEN 0 ELSE v.n - r) IN
